@@ -28,6 +28,7 @@ func init() {
 func runC11(c *report.Ctx) {
 	p := c.P
 	ruleSoleWriter(c)
+	ruleHandleStateFollowsCommit(c)
 	rulePrefixLimit(c)
 	ruleBucketCacheKey(c)
 	ruleOverlaySequence(c)
